@@ -1,4 +1,5 @@
 import CCV.Model.Ops
+import CCV.Model.OpsExt
 import CCV.Model.Spec
 import CCV.Lemmas.Shape
 import CCV.Lemmas.Kernels
@@ -9,10 +10,14 @@ import CCV.Lemmas.OpsReduce
 import CCV.Lemmas.OpsGemm
 import CCV.Lemmas.OpsMisc
 import CCV.Lemmas.Slices
+import CCV.Lemmas.OpsSeg
+import CCV.Lemmas.OpsPerm2
+import CCV.Lemmas.OpsCuckoo
+import CCV.Lemmas.OpsPlumb
 /-
   C10 — primitive operations follow their documented NumPy-style modular semantics.
 
-  Property theorems only (helper lemmas: CCV/Lemmas/{Shape,Kernels,OpsMat,OpsPerm,OpsStruct,OpsReduce,OpsGemm,OpsMisc,Slices}.lean).
+  Property theorems only (helper lemmas: CCV/Lemmas/{Shape,Kernels,OpsMat,OpsPerm,OpsStruct,OpsReduce,OpsGemm,OpsMisc,Slices,OpsSeg,OpsPerm2,OpsCuckoo,OpsPlumb}.lean).
   `CCV.Ops`  = evaluator-shaped executable model (flat arrays, number_to_index / index_to_number,
                u128 kernels), the functions the model driver executes and the correspondence run
                compares with `SimpleEvaluator`;
@@ -402,5 +407,163 @@ theorem applyPermutation_eq_spec (xs p : List Nat) (hlen : p.length = xs.length)
   applyPermutation_spec xs p hlen hnd hlt
 
 example : applyPermutation true [3] [10, 20, 30] [2, 0, 1] = .ok [20, 30, 10] := by rfl
+
+/-- **ApplyPermutation on payloads of any rank + round trips** (`p` a permutation of `0..d-1`, payload
+    of shape `d × rest`, `rowOf a R k` = the `k`-th block of `R = Π rest` elements): plain: row `i` of
+    the result is row `p[i]` of the input; inverse: row `p[i]` of the result is row `i` of the input;
+    `apply(inverse_permutation p) ∘ apply(p) = id`, `apply_inverse(p) ∘ apply(p) = id`,
+    `apply(p) ∘ apply_inverse(p) = id`. -/
+theorem applyPermutation_roundtrip (d : Nat) (rest xs p : List Nat) (hx : xs.length = d * prod rest)
+    (hpl : p.length = d) (hnd : p.Nodup) (hlt : ∀ v ∈ p, v < d) :
+    ∃ q ys zs, inversePermutation p = .ok q ∧
+      applyPermutation false (d :: rest) xs p = .ok ys ∧ ys.length = xs.length ∧
+      (∀ i, i < d → rowOf ys (prod rest) i = rowOf xs (prod rest) (p.getD i 0)) ∧
+      applyPermutation true (d :: rest) xs p = .ok zs ∧ zs.length = xs.length ∧
+      (∀ i, i < d → rowOf zs (prod rest) (p.getD i 0) = rowOf xs (prod rest) i) ∧
+      applyPermutation false (d :: rest) ys q = .ok xs ∧
+      applyPermutation true (d :: rest) ys p = .ok xs ∧
+      applyPermutation false (d :: rest) zs p = .ok xs :=
+  applyPermutation_rows d rest xs p hx hpl hnd hlt
+
+example : inversePermutation [2, 0, 1] = .ok [1, 2, 0] ∧
+    applyPermutation false [3, 2] [1, 2, 3, 4, 5, 6] [2, 0, 1] = .ok [5, 6, 1, 2, 3, 4] ∧
+    applyPermutation false [3, 2] [5, 6, 1, 2, 3, 4] [1, 2, 0] = .ok [1, 2, 3, 4, 5, 6] ∧
+    applyPermutation true [3, 2] [5, 6, 1, 2, 3, 4] [2, 0, 1] = .ok [1, 2, 3, 4, 5, 6] := ⟨rfl, rfl, rfl, rfl⟩
+
+/-! ### SegmentCumSum -/
+
+/-- **SegmentCumSum = the documented iteration** (`output[0] = v`, `output[i] = A[i-1] + B[i-1]·output[i-1]`),
+    all scalar types (arithmetic mod 2^w), any number of rows `n` (also `n = 0`), any row shape `rest`
+    (`[]` with `first` a scalar): the result has `(n+1)·Π rest` entries and its entry at `[i] ++ J` is
+    `Spec.segmentCumSum`. -/
+theorem segmentCumSum_eq_spec (st : ST) (rest xs bits first : List Nat)
+    (hx : xs.length = bits.length * prod rest) (hf : first.length = prod rest) (hb : ∀ x ∈ bits, x < 2)
+    (i : Nat) (J : List Nat) (hi : i ≤ bits.length) (hJ : validIdx J rest) :
+    (segmentCumSum st (prod rest) xs bits first).length = (bits.length + 1) * prod rest ∧
+    Spec.ofFlat ((bits.length + 1) :: rest) (segmentCumSum st (prod rest) xs bits first) (i :: J)
+      = Spec.segmentCumSum st (Spec.ofFlat (bits.length :: rest) xs) (fun t => bits.getD t 0)
+          (Spec.ofFlat rest first) (i :: J) :=
+  ⟨(segmentCumSum_flat st (prod rest) xs bits first hx hf hb).1,
+   (segmentCumSum_flat st (prod rest) xs bits first hx hf hb).2 i (flat J rest) hi (flat_lt hJ)⟩
+
+example : segmentCumSum .i8 2 [1, 2, 3, 4, 250, 6] [1, 1, 0] [100, 127] = [100, 127, 101, 129, 104, 133, 250, 6] := by
+  decide
+
+/-- **The iteration is a segment-wise cumulative sum**: with bits `B`, row `i` of the output is the
+    first row plus all input rows before `i` when no segment has started (`B[k] = 1` for all `k < i`),
+    and otherwise the sum of the input rows `s..i-1`, where `s` is the last position with `B[s] = 0`
+    (the row at a segment start is the input row itself). -/
+theorem segment_sums (a : Nat → Int) (b : Nat → Nat) (v : Int) (i : Nat) :
+    ((∀ k, k < i → b k = 1) → Spec.segIter a b v i = v + Spec.sumFrom 0 i a) ∧
+    (∀ s, s < i → b s = 0 → (∀ k, s < k → k < i → b k = 1) → Spec.segIter a b v i = Spec.sumFrom s i a) :=
+  ⟨segIter_all_ones a b v i, fun s hs h0 h1 => segIter_segment a b v s i hs h0 h1⟩
+
+example : Spec.segIter (fun k => [1, 2, 3, 4].getD k 0) (fun k => [1, 0, 1, 1].getD k 0) 10 4 = 9 ∧
+    Spec.sumFrom 1 4 (fun k => [1, 2, 3, 4].getD k 0) = 9 := by decide
+
+/-! ### CuckooHash -/
+
+/-- **CuckooHash, placement invariant** (`evaluate_cuckoo`: flat table, insertion loop with
+    evictions and the bound of 100 re-insertions; any number of sets, strings, hash functions
+    `h ≥ 1`, matrix sizes): if the evaluation succeeds, the result has `numSets · 2^rows` cells and in
+    the cells `s·2^rows .. (s+1)·2^rows - 1` of set `s`
+    * every string index `i < n` sits in a cell `c` which is one of its hash positions
+      (`c = hash_f(string i)` for some `f < h`),
+    * no index sits in two cells,
+    * every other cell holds the sentinel `CUCKOO_DUMMY_ELEMENT = 2^64 - 1`. -/
+theorem cuckooHash_placement (inputBits hm : List Nat) (numSets n b h rows cols : Nat) (hh : 0 < h)
+    (hbits : ∀ x ∈ inputBits, x < 2) (hn : n < 2 ^ 64) (r : List Nat)
+    (hres : cuckooHash inputBits hm numSets n b h rows cols = .ok r) :
+    r.length = numSets * 2 ^ rows ∧
+      ∀ s, s < numSets →
+        (∀ i, i < n → ∃ c, c < 2 ^ rows ∧ r.getD (s * 2 ^ rows + c) 0 = i ∧
+          ∃ f, f < h ∧ cuckooHashAt inputBits hm n b rows cols s f i = c) ∧
+        (∀ c c', c < 2 ^ rows → c' < 2 ^ rows → r.getD (s * 2 ^ rows + c) 0 = r.getD (s * 2 ^ rows + c') 0 →
+          r.getD (s * 2 ^ rows + c) 0 ≠ cuckooDummy → c = c') ∧
+        (∀ c, c < 2 ^ rows → r.getD (s * 2 ^ rows + c) 0 = cuckooDummy ∨ r.getD (s * 2 ^ rows + c) 0 < n) := by
+  obtain ⟨hlen, hinv⟩ := cuckooHash_inv inputBits hm numSets n b h rows cols hh hbits hn r hres
+  refine ⟨hlen, ?_⟩
+  intro s hs
+  obtain ⟨used, hi⟩ := hinv s hs
+  have hw : ∀ c, c < 2 ^ rows → win (2 ^ rows) s (s * 2 ^ rows + c) :=
+    fun c hc => ⟨Nat.le_add_right _ _, Nat.add_lt_add_left hc _⟩
+  refine ⟨?_, ?_, ?_⟩
+  · intro i hin
+    obtain ⟨c', hc', hci⟩ := hi.mem i hin
+    have hd : r.getD c' 0 ≠ cuckooDummy := by rw [hci]; unfold cuckooDummy; omega
+    have hcell := hi.cell c' hc' hd
+    refine ⟨c' - s * 2 ^ rows, by have := hc'.1; have := hc'.2; omega, ?_, used.getD c' 0, hcell.2.1, ?_⟩
+    · rw [Nat.add_sub_cancel' hc'.1]; exact hci
+    · have h2 := hcell.2.2
+      rw [hci] at h2
+      have := hc'.1
+      omega
+  · intro c c' hc hc' heq hd
+    have := hi.inj _ _ (hw c hc) (hw c' hc') heq hd
+    omega
+  · intro c hc
+    by_cases hd : r.getD (s * 2 ^ rows + c) 0 = cuckooDummy
+    · exact Or.inl hd
+    · exact Or.inr (hi.cell _ (hw c hc) hd).1
+
+/-- three strings that all hash to cell 0 under the first hash function: the second evicts the first,
+    the third evicts the second; two sets in one flat table; a failing instance (five strings for
+    four cells) -/
+example : cuckooHash [0, 1, 1, 0, 1, 1] [0, 0, 0, 0, 1, 0, 0, 1, 1, 1, 1, 1] 1 3 2 3 2 2
+      = .ok [2, 1, 0, 2 ^ 64 - 1] ∧
+    cuckooHash [0, 1, 1, 0, 1, 1, 1, 1, 0, 1, 1, 0] [0, 0, 0, 0, 1, 0, 0, 1, 1, 1, 1, 1] 2 3 2 3 2 2
+      = .ok [2, 1, 0, 2 ^ 64 - 1, 2, 2 ^ 64 - 1, 1, 0] ∧
+    (∃ e, cuckooHash [0, 1, 1, 0, 1, 1, 0, 0, 0, 1] [0, 0, 0, 0, 1, 0, 0, 1, 1, 1, 1, 1] 1 5 2 3 2 2 = .error e) :=
+  ⟨rfl, rfl, _, rfl⟩
+
+/-- **CuckooHash, pigeonhole failure**: with more strings in a set than cells in its table the
+    evaluation is a run-time error (consequence of the placement invariant). -/
+theorem cuckooHash_overfull (inputBits hm : List Nat) (numSets n b h rows cols : Nat) (hh : 0 < h)
+    (hbits : ∀ x ∈ inputBits, x < 2) (hn : n < 2 ^ 64) (hs : 0 < numSets) (hfull : 2 ^ rows < n) :
+    ∃ e, cuckooHash inputBits hm numSets n b h rows cols = .error e := by
+  cases hres : cuckooHash inputBits hm numSets n b h rows cols with
+  | error e => exact ⟨e, rfl⟩
+  | ok r =>
+    exfalso
+    obtain ⟨_, hpl⟩ := cuckooHash_placement inputBits hm numSets n b h rows cols hh hbits hn r hres
+    obtain ⟨hmem, _, _⟩ := hpl 0 hs
+    have hsub : List.range n ⊆ (List.range (2 ^ rows)).map (fun c => r.getD (0 * 2 ^ rows + c) 0) := by
+      intro i hi
+      obtain ⟨c, hc, hci, _⟩ := hmem i (List.mem_range.mp hi)
+      exact List.mem_map.mpr ⟨c, List.mem_range.mpr hc, hci⟩
+    have := List.Nodup.length_le_of_subset List.nodup_range hsub
+    simp only [List.length_range, List.length_map] at this
+    omega
+
+example : ∃ e, cuckooHash [0, 1, 1, 0, 1, 1, 0, 0, 0, 1] [0, 0, 0, 0, 1, 0, 0, 1, 1, 1, 1, 1] 1 5 2 3 2 2 = .error e :=
+  cuckooHash_overfull _ _ 1 5 2 3 2 2 (by decide) (by decide) (by decide) (by decide) (by decide)
+
+/-! ### Zip / Repeat / tuple plumbing -/
+
+/-- **Zip** of `k ≥ 1` vectors of equal length `n`: `n` rows of `k` entries, `result[i][k] = values[k][i]`. -/
+theorem zip_eq_spec {α : Type} (values : List (List α)) (n : Nat) (hne : values ≠ [])
+    (hl : ∀ v ∈ values, v.length = n) :
+    (zip values).length = n ∧
+    ∀ i, i < n → ∃ row, (zip values)[i]? = some row ∧ row.length = values.length ∧
+      ∀ (k : Nat) (v : List α), values[k]? = some v → row[k]? = v[i]? :=
+  zip_spec values n hne hl
+
+example : zip [[1, 2, 3], [4, 5, 6]] = [[1, 4], [2, 5], [3, 6]] := by decide
+
+/-- **Repeat(n)** is `n` copies; **CreateTuple/CreateNamedTuple/CreateVector** followed by
+    **TupleGet / VectorGet / NamedTupleGet** returns the selected operand; `VectorGet` beyond the
+    length is a run-time error. -/
+theorem plumbing_eq_spec {α : Type} (vs : List α) (v : α) (n id : Nat) :
+    ((repeatV n v).length = n ∧ ∀ i, i < n → (repeatV n v)[i]? = some v) ∧
+    tupleGet (createTuple vs) id = vs[id]? ∧
+    (∀ w, vs[id]? = some w → vectorGet (createTuple vs) id = .ok w) ∧
+    (vs.length ≤ id → ∃ e, vectorGet (createTuple vs) id = .error e) ∧
+    (∀ (names : List String) (name : String), names.findIdx? (· == name) = some id →
+      namedTupleGet names (createTuple vs) name = vs[id]?) :=
+  ⟨repeat_spec n v, (tuple_get_spec vs id).1, (tuple_get_spec vs id).2.1, (tuple_get_spec vs id).2.2,
+    fun names name h => namedTupleGet_spec names vs name id h⟩
+
+example : repeatV 3 [7, 8] = [[7, 8], [7, 8], [7, 8]] ∧ tupleGet (createTuple [10, 20, 30]) 1 = some 20 ∧
+    namedTupleGet ["a", "b", "c"] [10, 20, 30] "c" = some 30 := by decide
 
 end CCV.C10
